@@ -41,6 +41,8 @@ def run(chk: Check) -> None:
     chk.floor("R03.3", "detach primitives", own.counts.get("detach_primitives", 0), 4)
     chk.floor("R03.6", "loader registrations", own.counts.get("loader_registrations", 0), 7)
 
+    from .lookups import truthiness_safe
+    truthiness_safe(chk, "R03.3")
     # R03.7 get_by_uuid / _from_protobuf
     repo = chk.repo
     ir = repo.cls("IR")
